@@ -99,17 +99,28 @@ def prepare(folder, kind, texts, pre):
         if hasattr(P.parse, "initialized_dbs"):
             del P.parse.initialized_dbs
         P.parse("model Seed end Seed;", model_cache_folder=Path(folder))
-        for ti, _age in pre:
+        for ti, _age in [x[:2] for x in pre]:
             P.parse(texts[ti], model_cache_folder=Path(folder))
         c = sqlite3.connect(db)
         c.execute("DELETE FROM models WHERE txt_hash=?", (sha("model Seed end Seed;"),))
         now_us = time.time_ns() // 1000
-        for ti, age in pre:      # age of the entry in days: last_hit is written directly
+        for ti, age in [x[:2] for x in pre]:      # age of the entry in days: last_hit is written directly
             c.execute("UPDATE models SET last_hit=? WHERE txt_hash=?", (now_us - int(age * 86400e6), sha(texts[ti])))
         c.commit(); c.close()
         return db
     c = sqlite3.connect(db)
-    if kind == "wrong":
+    if kind == "wrongpk":
+        # an older layout (other primary key) that still ANSWERS the lookup: rows [text, age, payload text]
+        # hold, under the key of `text`, the pickled tree of `payload text`
+        import pickle
+        c.execute("CREATE TABLE models (txt_hash TEXT, pymoca_version TEXT, data BLOB, last_hit TIMESTAMP INTEGER, "
+                  "PRIMARY KEY (txt_hash))")
+        now_us = time.time_ns() // 1000
+        for ti, age, pay in pre:
+            c.execute("INSERT INTO models VALUES (?, ?, ?, ?)",
+                      (sha(texts[ti]), pymoca.__version__, pickle.dumps(P.parse(texts[pay], bypass_cache=True)),
+                       now_us - int(age * 86400e6)))
+    elif kind == "wrong":
         c.execute("CREATE TABLE models (txt_hash TEXT, data BLOB)")
     elif kind == "wrongmeta":
         c.execute("CREATE TABLE models (txt_hash TEXT, pymoca_version TEXT, data BLOB, last_hit TIMESTAMP INTEGER, "
@@ -183,6 +194,7 @@ def gate(kind, fn):
         call.go.wait()
         call.go.clear()
         best = None
+        last_exc = None
         for _try in range(3):
             t0 = time.time()
             try:
@@ -192,6 +204,7 @@ def gate(kind, fn):
                     CTL.trace.append([call.cid, kind, "err"])
                     raise
                 dt = time.time() - t0
+                last_exc = e
                 best = dt if best is None else min(best, dt)
                 if dt < 0.005 or dt >= 0.8 * TO:
                     break
@@ -208,6 +221,11 @@ def gate(kind, fn):
         if best < 0.5 * TO:
             CTL.trace.append([call.cid, kind, "busy"])
             raise sqlite3.OperationalError("database is locked")
+        if getattr(call, "expire", False):
+            # the schedule says: this call's busy timeout expires now - deliver what sqlite3 raised after waiting
+            call.expire = False
+            CTL.trace.append([call.cid, kind, "timeout"])
+            raise last_exc
         CTL.trace.append([call.cid, kind, "blocked"])
 
 
@@ -351,6 +369,11 @@ def run_sched(case):
         def alias(i):
             return Path(folder) / ("alt%d" % i) / ".."
         P.parse.initialized_dbs = {plain / P.DEFAULT_MODEL_CACHE_DB}
+        shared = bool(case.get("shared"))      # threads of ONE fresh process: same path key, nothing initialised
+        if shared:
+            P.parse.initialized_dbs = set()
+            del P.parse.initialized_dbs
+        ino0 = os.stat(db).st_ino if os.path.exists(db) else None
         calls = []
         threads = []
 
@@ -358,7 +381,7 @@ def run_sched(case):
             CTL.calls[threading.get_ident()] = call
             try:
                 t = P.parse(texts[spec["text"]],
-                            model_cache_folder=(alias(call.cid) if spec["init"] else plain),
+                            model_cache_folder=(plain if (shared or not spec["init"]) else alias(call.cid)),
                             always_update_last_hit=bool(spec["upd"]),
                             cache_expiration_days=int(spec.get("exp", 30)))
                 call.result = ["ok", "none" if t is None else dump(t)]
@@ -387,8 +410,11 @@ def run_sched(case):
         effective = []
 
         def one(cid):
-            call = calls[cid]
+            expire = cid >= 100
             effective.append(cid)
+            cid = cid % 100
+            call = calls[cid]
+            call.expire = expire
             if call.done.is_set():
                 CTL.trace.append([cid, "none", "idle"])
                 return
@@ -418,7 +444,8 @@ def run_sched(case):
         CTL = None
         P.sqlite3 = REAL_SQLITE
         P.os = REAL_OS
-        return {"trace": trace, "effective": effective, "results": [c.result for c in calls], "want": want,
+        ino1 = os.stat(db).st_ino if os.path.exists(db) else None
+        return {"inode_kept": (ino0 is None or ino0 == ino1), "trace": trace, "effective": effective, "results": [c.result for c in calls], "want": want,
                 "final": final_state(db, texts), "connect_kw": [{k: repr(v) for k, v in (kw or {}).items()} for kw in kws],
                 "undrained": budget <= 0}
     finally:
